@@ -396,7 +396,13 @@ Proof.
 Qed.
 
 Lemma inv_init : inv {| parts := ps; tfmt := flat (rw items); pre := []; idxs := []; next := 0; cts := 0; csec := 0 |}.
-Proof. constructor; cbn; try reflexivity; try lia. Qed.
+Proof.
+  constructor; cbn [parts tfmt pre idxs next cts csec]; try reflexivity.
+  - intros t Ht. exfalso. clear - Ht. lia.
+  - intros H. exfalso. clear - H. lia.
+  - intros H. exfalso. clear - H. lia.
+  - intros H. exfalso. clear - H. lia.
+Qed.
 
 (* one call of format_timestamp *)
 Lemma step_ok st t : inv st -> okt t ->
